@@ -117,6 +117,13 @@ def judge(case):
     pw2 = U.pyvaporation.get_partial_pressures(t, mix, comp_w.to_molar(mix), model)
     if not all(core.bit_eq(pw[i], pw2[i]) for i in (0, 1)):
         v.append(core.viol("C04/basis/" + model, "partial pressures differ between a mass fraction and its own molar image: %r vs %r" % (pw, pw2)))
+    # the same weight-typed Composition OBJECT used with another mixture first, then with this one: same answer
+    other_mix = U.get_mixture("H2O_iPOH" if mix.name != "H2O_iPOH" else "MeOH_DMC")
+    shared = U.Composition(p=w, type="weight")
+    core.call(U.pyvaporation.get_partial_pressures, t, other_mix, shared, "NRTL")
+    st_s, ps_ = core.call(U.pyvaporation.get_partial_pressures, t, mix, shared, model)
+    if st_s != "ok" or not all(core.bit_eq(ps_[i], pw[i]) for i in (0, 1)):
+        v.append(core.viol("C04/basis/reused_composition/" + model, "a mass-fraction Composition object that was first used with another mixture gives partial pressures %r, a fresh one %r" % (ps_, pw)))
     if not all(core.close(float(pw[i]), float(pm[i]), 1e-9) for i in (0, 1)):
         v.append(core.viol("C04/basis/" + model, "partial pressures differ between mole fraction %r and the equivalent mass fraction %r: %r vs %r" % (x, w, pm, pw)))
     return core.result("judged" + ("" if kclass is None else ":" + kclass), digest=core.digest_of([core.fhex(g[0]), core.fhex(g[1])]), viol=v,
